@@ -6,6 +6,9 @@
  *
  *   seq|<v>,<v>,...|<op> <op> ...     the sequence API of Array.c on an Array of Int; the transcript is
  *                                     the one of ocaml/Config_driver.ml (extracted model / specification)
+ *   hp|<nregs>|<op> <op> ...          heap programs of the collector model (gop of coq/Config.v): objects are
+ *                                     collector-managed structs reached only through the register file; the
+ *                                     transcript is the one of ocaml/Config_driver.ml (heap0 / heap1)
  *   wl|<op> <op> ...                  the in-contract workload interpreter: a register machine over Cello
  *                                     objects.  EVERY operation normalises its arguments into the contract
  *                                     of the call it makes (indices modulo the current length, keys looked
@@ -690,6 +693,74 @@ static void run_seq(char* init, char* ops) {
   }
 }
 
+/* ------------------------------------------------------------------ heap programs (collector switch; model: gop of coq/Config.v) */
+#define NFIELD 4
+struct Node { int64_t payload; int64_t nf; var f[NFIELD]; };
+static var Node = Cello(Node);          /* no Mark instance: the collector scans the words of the struct */
+
+static var hp_deref(var* R, int nregs, char* path) {     /* root[.index]* ; NULL = leads nowhere */
+  char* s = path; char* t = next_tok(&s, '.');
+  if (t == NULL) return NULL;
+  long r = strtol(t, NULL, 10);
+  if (r < 0 || r >= nregs) return NULL;
+  struct Node* a = R[r];
+  while (a != NULL && (t = next_tok(&s, '.')) != NULL) {
+    long i = strtol(t, NULL, 10);
+    if (i < 0 || i >= a->nf) return NULL;
+    a = a->f[i];
+  }
+  return a;
+}
+static void run_heap(char* nregs_s, char* ops) {
+  var R[16]; int nregs = atoi(nregs_s); if (nregs > 16) nregs = 16;
+  for (int i = 0; i < 16; i++) R[i] = NULL;
+  char* s = ops; char* tok; int first = 1;
+  while ((tok = next_tok(&s, ' ')) != NULL) {
+    if (*tok == 0) continue;
+    if (!first) P(" | ");
+    first = 0;
+    char kind = tok[0]; char* as = tok + 1;
+    char* f[8]; int nf = 0; char* t;
+    while (nf < 8 && (t = next_tok(&as, ',')) != NULL) f[nf++] = t;
+    switch (kind) {
+      case 'A': {
+        long dst = strtol(f[0], NULL, 10);
+        var fs[NFIELD]; int k = 0, bad = 0;
+        for (int i = 2; i < nf && k < NFIELD; i++) { fs[k] = hp_deref(R, nregs, f[i]); if (fs[k] == NULL) bad = 1; k++; }
+        if (bad) { P("bad"); break; }
+        struct Node* n = new(Node);
+        n->payload = strtoll(f[1], NULL, 10); n->nf = k;
+        for (int i = 0; i < k; i++) n->f[i] = fs[i];
+        if (dst >= 0 && dst < nregs) R[dst] = n;     /* a register outside the file: the object is garbage at once */
+        P("ok"); break;
+      }
+      case 'R': { struct Node* a = hp_deref(R, nregs, f[0]); if (a) P("v%" PRId64, a->payload); else P("bad"); break; }
+      case 'W': { struct Node* a = hp_deref(R, nregs, f[0]); if (a) { a->payload = strtoll(f[1], NULL, 10); P("ok"); } else P("bad"); break; }
+      case 'S': {
+        struct Node* a = hp_deref(R, nregs, f[0]); long i = strtol(f[1], NULL, 10); var b = hp_deref(R, nregs, f[2]);
+        if (a == NULL || b == NULL) { P("bad"); break; }
+        if (i >= 0 && i < a->nf) a->f[i] = b;          /* beyond the fields: nothing to set (as the model) */
+        P("ok"); break;
+      }
+      case 'M': {
+        long dst = strtol(f[0], NULL, 10); var a = hp_deref(R, nregs, f[1]);
+        if (a == NULL) { P("bad"); break; }
+        if (dst >= 0 && dst < nregs) R[dst] = a;
+        P("ok"); break;
+      }
+      case 'D': { long dst = strtol(f[0], NULL, 10); if (dst >= 0 && dst < nregs) R[dst] = NULL; P("ok"); break; }
+      case 'C': {
+#ifndef CELLO_NGC
+        GC_Mark(current(GC)); GC_Sweep(current(GC));
+#endif
+        P("ok"); break;
+      }
+      default: P("BADOP");
+    }
+    fflush(OUT);
+  }
+}
+
 static void one_case(char* line) {
   char* s = line;
   char* kind = next_tok(&s, '|');
@@ -699,6 +770,10 @@ static void one_case(char* line) {
     char* ops = s;
     if (init == NULL) { P("BADCASE"); return; }
     run_seq(init, ops);
+  } else if (kind and strcmp(kind, "hp") == 0) {
+    char* nregs = next_tok(&s, '|');
+    if (nregs == NULL) { P("BADCASE"); return; }
+    run_heap(nregs, s);
   } else if (kind and strcmp(kind, "wl") == 0) {
     run_workload(s);
   } else if (kind and strcmp(kind, "cfg") == 0) {
